@@ -17,6 +17,7 @@ def run(res, a):
     except ImportError:
         pass
     conc.run_conc(res, "C10", a.seed, a.tier)
+    conc.run_lockstep(res, "C10", a.seed, a.tier)
     res.cov["rule"] = ("sequential: API traces creating, filling, deleting and destroying several heaps in any order with set_default, checked by the shadow "
                        "table (blocks of a deleted heap stay valid and are attributed to the backing heap, destroy drops exactly its own blocks, "
                        "mi_heap_contains_block / mi_heap_check_owned agree with the shadow attribution, default falls back) and by replaying the dumped "
